@@ -110,8 +110,11 @@ def r9_utf16_vs_bytes(ctx):
                         if fs:
                             hits.add("compared with %s" % fs)
         for bb, c in f.calls():
-            if any(op_local(a) in cur_aliases for a in c["args"]) and (c.get("res") or "").endswith("::extract_word_at_position"):
-                hits.add("used as a char index by extract_word_at_position")
+            # the word extractor by role: (line: &str, index: usize) -> Option<String>, indexing the line's chars
+            g = crate.fns.get(c.get("res")) if c.get("res_local") else None
+            if g is not None and g.argc >= 2 and g.local_ty(g.argc - 1) == "&str" and g.local_ty(g.argc) == "usize" \
+                    and "Option<std::string::String>" in g.ret and len(c["args"]) == g.argc and op_local(c["args"][-1]) in cur_aliases:
+                hits.add("used as a char index by the word extractor")
         for h in sorted(hits):
             key = "R9b|%s|cursor column %s" % (f.id, h)
             if key in REVIEWED:
